@@ -362,6 +362,11 @@ def gen_sql():
         raise SrcgenError("accumulation tail (below-target UNION crossing note) changed")
     below = m.group(1)
 
+    m = re.search(r'FROM eligible WHERE value\s*(<=|>=|<|>|=)\s*:target_value\s*ORDER BY lock_tier \{tier_direction\}, commitment_tree_position"', b)
+    if not m:
+        raise SrcgenError("single-covering tail (value >= :target_value ORDER BY lock_tier, commitment_tree_position) changed")
+    single_cmp = CMPS[m.group(1)]
+
     def sofar_cmp(s, where_):
         mm = re.fullmatch(r"so_far\s*(<=|>=|<|>|=)\s*:target_value", s.strip())
         if not mm:
@@ -407,6 +412,7 @@ def gen_sql():
     out.append("Definition unspent_where_unfiltered : expr :=\n  %s." % unspent_unf)
     out.append("Definition below_target_cmp : cmp := %s." % sofar_cmp(below, "below-target"))
     out.append("Definition crossing_cmp : cmp := %s." % sofar_cmp(cross, "crossing"))
+    out.append("Definition single_covering_cmp : cmp := %s." % single_cmp)
     srcgen.write_gen("C08SqlPred", "\n".join(out) + "\n")
 
 
@@ -419,10 +425,10 @@ class C08(Config):
               "From V.C08 Require Import Sql Model Spec Corr Wf.\n"
               "Local Open Scope Z_scope.")
     bin = "c08"
-    n_tags = 22
+    n_tags = 24
     classes = {}
     shard_size = 120
-    rule = ("wallet histories on the real SQLite backend (receipts into 2 accounts x 2 shielded pools, external spends, "
+    rule = ("wallet histories on the real SQLite backend, half of them on a local network with NU6.3/Ironwood active and a 12-block ZIP 318 grid (receipts into 2 accounts x 3 shielded pools, canonical-denomination payments to Orchard receivers, external spends, "
             "out-of-order scans, pending transactions created with create_proposed_transactions and mined or expired, "
             "locks taken/released/cleared/expired); after every operation the note rows are dumped with plain SELECTs and "
             "select_spendable_notes / propose_transfer / lock_outputs are called with generated arguments; one case per API call")
@@ -435,7 +441,8 @@ class C08(Config):
     ]
     assumptions = [
         "the change strategy is an arbitrary function (Section variable / per-case recorded table); balance of a step is enforced by Step::from_parts, not assumed",
-        "note ids are unique per pool (primary key); NU6.3 / Ironwood inactive in the test network (no canonical-crossing attempt)",
+        "note ids are unique per pool (primary key)",
+        "canonical-crossing attempt: the ZIP 318 grid, NU6.3 activation height, anchor_computable(Orchard, boundary), the data source's anchor under the bucketed policy and the canonical fee are inputs reported by the wallet; theorems assume that anchor <= the boundary",
     ]
     partial_clauses = [
         "transparent inputs (propose_shielding, gather_transparent) and ZIP 320 multi-step proposals are not modelled",
